@@ -443,9 +443,9 @@ def run_vector(name, sid, seed, net_seed):
 def run_tabular(name, sid, seed, net_seed):
     import importlib
 
-    T = 10
+    T = 14
     nS = 12
-    base = make_env(STEP_SCRIPTS[sid] + "cT", discrete=True, discrete_obs=nS, horizon=T + 1)
+    base = make_env(STEP_SCRIPTS[sid] + "cTccUc", discrete=True, discrete_obs=nS, horizon=T + 1)
     base.action_space.seed(seed)
     base.observation_space.seed(seed)
     env = gym.wrappers.RecordEpisodeStatistics(base)
@@ -500,8 +500,8 @@ def run_cmaes(name, sid, seed, net_seed):
 def run_multitask(name, sid, seed, net_seed):
     from rl_blox.blox.replay_buffer import MultiTaskReplayBuffer, ReplayBuffer
 
-    n_tasks = 3
-    budget = 14
+    n_tasks = {"active_mt": 2, "smt": 4}.get(name, 3)  # SMT: 4 tasks so that the main pool holds tied candidates
+    budget = 24 if name == "active_mt" else 14  # active-MT: long enough to leave the bandit's initial round-robin phase
     envs = gym.vector.SyncVectorEnv([(lambda i=i: make_env(_periodic(sid + i, budget + 8))) for i in range(n_tasks)])
     env0 = envs.envs[0]
     lg = make_logger()
@@ -538,7 +538,12 @@ def run_multitask(name, sid, seed, net_seed):
         else:
             from rl_blox.algorithm.active_mt import train_active_mt
 
-            sel = ["Monotonic Progress", "1-step Progress"][sid % 2]
+            from rl_blox.algorithm.active_mt import TASK_SELECTORS
+            from rl_blox.blox.multitask import DUCBGeneralized
+
+            sel_name = ["Monotonic Progress", "1-step Progress"][sid % 2]
+            sel = DUCBGeneralized(tasks=np.arange(n_tasks), upper_bound=20.0, ducb_gamma=0.9, zeta=0.5, **TASK_SELECTORS[sel_name][1])
+            comps["task_selector"] = sel
             res, err = _guard(lambda: train_active_mt(envs, train_st, rb, r_max=20.0, ducb_gamma=0.9, xi=0.5, task_selector=sel,
                                                       total_timesteps=budget, scheduling_interval=1, learning_starts=3, seed=seed,
                                                       logger=lg, progress_bar=False))
